@@ -53,7 +53,7 @@ mutual
     | .tstr b => b.length < two64 ∧ validUtf8 b = true
     | .arr xs => xs.length ≤ maxElems ∧ WFList xs
     | .map kvs => kvs.length ≤ maxElems ∧ WFPairs kvs ∧ KeysSorted kvs ∧ kvs.all (fun kv => hashableKey kv.1) = true
-    | .tag t v => t < two64 ∧ WF v
+    | .tag t v => t < two64 ∧ WF v ∧ tagContentOk t v = true
     | .simple n => n < 24 ∨ (32 ≤ n ∧ n < 256)
     | .float _ _ => False
   def WFList : List Cbor → Prop
@@ -149,8 +149,8 @@ mutual
       simp only [depth] at hd
       simp only [encode, decode, List.append_assoc, decHead_head 6 t _ (by omega) hw.1]
       have hd0 : ¬ d = 0 := by omega
-      rw [decode_encode w hw.2 f (d - 1) r (by omega) (by omega)]
-      simp [hd0]
+      rw [decode_encode w hw.2.1 f (d - 1) r (by omega) (by omega)]
+      simp [hd0, hw.2.2]
     | .simple n, f + 1 =>
       simp only [WF] at hw
       have hn : n < 18446744073709551616 := by omega
